@@ -713,10 +713,24 @@ def hoc_record_case(ctx, r, vt, raw, rawf, pnorm, pvars, src0, raw_text, lines, 
     dom = (0, 1) if vt == 'BINARY' else (-1, 1)
     mode = mode or r.choice(RECORD_MODES)
     direct = mode == 'direct'
-    strength = r.choice([F(1, 2), F(1), F(2), F(3)])
+    strength = r.choice([F(1, 2), F(1), F(2), F(3), F(1), F(2), F(0), F(-1)])
     keep = r.random() < .5; discard = r.random() < .5
     nrows = r.randint(0, 6); rseed = r.randrange(2 ** 31); junk = r.random() < .6
     cls = f"record: {mode} keep={int(keep)} discard={int(discard)}"
+    # entry point: sample_poly, or sample_hising (SPIN) / sample_hubo (BINARY) with the same terms as h, J / H dicts
+    entry = 'poly' if direct or r.random() < .6 else ('hising' if vt == 'SPIN' else 'hubo')
+    h, J, H = {}, {}, {}
+    if entry == 'hubo':
+        for t, b in rawf:
+            H[t] = H.get(t, 0.0) + b
+        raw_text = ';'.join('&'.join(lab(v) for v in t) + '=' + rat(b) for t, b in H.items()) or '-'
+    elif entry == 'hising':
+        for t, b in rawf:
+            if len(t) == 1:
+                h[t[0]] = h.get(t[0], 0.0) + b
+            else:
+                J[t] = J.get(t, 0.0) + b
+        raw_text = ';'.join([lab(v) + '=' + rat(b) for v, b in h.items()] + ['&'.join(lab(v) for v in t) + '=' + rat(b) for t, b in J.items()]) or '-'
     src = (src0 + 'import random, numpy as np\nfrom dimod.reference.composites.higherordercomposites import polymorph_response\n'
            + inspect.getsource(hoc_rows) + inspect.getsource(record_child_set)
            + f'strength, keep, discard, mode, nrows, rseed, junk, direct = {float(strength)!r}, {keep}, {discard}, {mode!r}, {nrows}, {rseed}, {junk}, {direct}\n'
@@ -728,8 +742,11 @@ def hoc_record_case(ctx, r, vt, raw, rawf, pnorm, pvars, src0, raw_text, lines, 
            'if direct:\n'
            '    bqm = dimod.make_quadratic(poly, strength, vt); resp = child.sample(bqm)\n'
            '    ss = polymorph_response(resp, poly, bqm, keep_penalty_variables=keep, discard_unsatisfied=discard)\n'
-           'else:\n'
-           '    ss = dimod.HigherOrderComposite(child).sample_poly(poly, penalty_strength=strength, keep_penalty_variables=keep, discard_unsatisfied=discard)\n'
+           f'entry, h, J, H = {entry!r}, {h!r}, {J!r}, {H!r}\n'
+           'kw = dict(penalty_strength=strength, keep_penalty_variables=keep, discard_unsatisfied=discard)\n'
+           'if not direct:\n'
+           '    sampler = dimod.HigherOrderComposite(child)\n'
+           '    ss = sampler.sample_hising(h, J, **kw) if entry == "hising" else sampler.sample_hubo(H, **kw) if entry == "hubo" else sampler.sample_poly(poly, **kw)\n'
            'cs, labels, rows, info0 = child.out\n'
            'red = child.bqm.info["reduction"]\n'
            'ok = lambda row: all(row[u] * row[v] == row[d["product"]] for (u, v), d in red.items())\n'
@@ -761,7 +778,10 @@ def hoc_record_case(ctx, r, vt, raw, rawf, pnorm, pvars, src0, raw_text, lines, 
                 resp = child.sample(bqm)
                 ss = polymorph_response(resp, poly, bqm, keep_penalty_variables=keep, discard_unsatisfied=discard)
             else:
-                ss = dimod.HigherOrderComposite(child).sample_poly(poly, penalty_strength=float(strength), keep_penalty_variables=keep, discard_unsatisfied=discard)
+                sampler = dimod.HigherOrderComposite(child)
+                kw = dict(penalty_strength=float(strength), keep_penalty_variables=keep, discard_unsatisfied=discard)
+                ss = (sampler.sample_hising(h, J, **kw) if entry == 'hising' else sampler.sample_hubo(H, **kw) if entry == 'hubo'
+                      else sampler.sample_poly(poly, **kw))
     except Exception as e:  # noqa
         err = e
     if child.out is None:
@@ -774,7 +794,10 @@ def hoc_record_case(ctx, r, vt, raw, rawf, pnorm, pvars, src0, raw_text, lines, 
     needed = {w for (u, v), p in cons_q for w in (u, v, p)} | set(pvars)
     wellformed = needed <= set(labels) and 'penalty_satisfaction' not in names
     ctx.tick(f'hoc:record:{mode}:keep={int(keep)}:discard={int(discard)}')
-    ctx.case(('hocr', vt, raw_text, strength, keep, discard, mode, nrows, rseed, junk), nontrivial=bool(cons_q) and len(rows) > 0 or mode != 'ok')
+    ctx.tick(f'hoc:entry:sample_{entry}' if not direct else 'hoc:entry:polymorph_response')
+    if strength <= 0:
+        ctx.tick('hoc:record:penalty_strength:zero' if strength == 0 else 'hoc:record:penalty_strength:negative')
+    ctx.case(('hocr', vt, entry, raw_text, strength, keep, discard, mode, nrows, rseed, junk), nontrivial=bool(cons_q) and len(rows) > 0 or mode != 'ok')
     ok = lambda row: all(row[u] * row[v] == row[p] for (u, v), p in cons_q)   # noqa: E731
     bad = False
     if err is not None:
